@@ -237,6 +237,20 @@ Lemma suspend_running_ignores_conditions sub a mf ns ns' aux w :
   done (gett w aux) = false -> suspend P sub a mf ns aux w = suspend P sub a mf ns' aux w.
 Proof. intros Hd. unfold suspend. rewrite Hd. reflexivity. Qed.
 
+(* Framer.segue: the plain auxiliaries of EVERY active frame make their transitions (top down) before the
+   first transition / conditional-auxiliary clause of any frame of the framer is evaluated, and the frames'
+   clauses are evaluated on the world those auxiliary runs left *)
+Lemma segue_auxes_first sub t w : crashed w = None ->
+  framer_segue P sub t w =
+  let w0 := emit w (ESegue t) in
+  let s := gett w0 t in
+  let w1 := sett w0 t (ts_set_clock s (fstamp s) (tsub O (stamp w0) (fstamp s)) (recurred s + 1)%Z) in
+  let acts := actives (gett w1 t) in
+  let w2 := fold_left (fun w f => fold_left (fun w aux => guard w (o_segue sub aux)) (fr_auxes (getf P t f)) w)
+                      acts w1 in
+  fst (segue_frames P sub t acts w2).
+Proof. intros Hc. unfold framer_segue, guard at 1. rewrite Hc. reflexivity. Qed.
+
 (* ---------- C11: the clocks at evaluation time ---------- *)
 (* comparison needs on the framer clocks are exactly the written comparison *)
 Lemma elapsed_need me w c g : eval_need P me w (NElapsed c g) = cmpT O c (elapsed (gett w me)) g.
